@@ -155,12 +155,36 @@ package resource_division
 //@   ensures [equalOnlyIfSame] (result == 0) == (i == j)
 //@ end
 
+// Assumed contracts of the two generic library functions used by getQueuesByPriority (bodies are not
+// part of the verified program).
+//@ func golang.org/x/exp/maps.Keys
+//@   trusted
+//@   note library (golang.org/x/exp/maps): "Keys returns the keys of the map m. The keys will be in an indeterminate order." New slice, one element per key, nothing else written.
+//@   fresh
+//@   ensures [oneElementPerKey] len(result) == len(arg0)
+//@   ensures [elementsAreKeys] forall i in result :: result[i] in arg0
+//@   ensures [everyKeyListed] forall k in arg0 :: exists i in result :: result[i] == k
+//@   ensures [noDuplicates] forall i in result :: forall j in result :: i != j ==> result[i] != result[j]
+//@ end
+
+// sortCmp stands for "the cmp argument of slices.SortFunc" (function values cannot be called in specs): the only
+// SortFunc call of this package passes getQueuesByPriority$1, whose proved contract is result == j - i.
+//@ define sortCmp(a int, b int) int = b - a
+//@ func slices.SortFunc
+//@   trusted
+//@   note library (slices): "SortFunc sorts the slice x in ascending order as determined by the cmp function" (cmp(a,b) < 0 when a must come before b; requires a strict weak ordering, proved for getQueuesByPriority$1). In-place permutation of the elements.
+//@   modifies arg0[*]
+//@   ensures [sameLength] len(arg0) == old(len(arg0))
+//@   ensures [onlyOldElements] forall i in arg0 :: exists j in arg0 :: arg0[i] == old(arg0[j])
+//@   ensures [allOldElements] forall j in arg0 :: exists i in arg0 :: arg0[i] == old(arg0[j])
+//@   ensures [noNewDuplicates] forall i in arg0 :: forall j in arg0 :: i != j && arg0[i] == arg0[j] ==> exists i2 in arg0 :: exists j2 in arg0 :: i2 != j2 && old(arg0[i2]) == old(arg0[j2])
+//@   ensures [sorted] forall i in arg0 :: forall j in arg0 :: i < j ==> sortCmp(arg0[j], arg0[i]) >= 0
+//@ end
+
 // grouping of the siblings by priority is a partition of the input map (functional => independent of
 // the map iteration order); the priority list is the key set of the partition, sorted descending.
 //@ func getQueuesByPriority
 //@   props C09
-//@   trusted
-//@   note outside the subset: the tail calls the generic library functions golang.org/x/exp/maps.Keys and slices.SortFunc. With assumed contracts for the two (Keys: fresh slice, one element per key; SortFunc: in-place permutation sorted by the comparator) and 'trusted' removed, all obligations of the grouping loop (entry, preservation, no-panic, map frames) and the 6 grouping postconditions are discharged; the 3 postconditions about the sorted slice are solver-fragile (time-outs that come and go) and the frame of family C:int cannot be proved because `modifies arg0[*]` havocs every int cell. The comparator passed to SortFunc is proved separately (getQueuesByPriority$1: result == j - i, i.e. descending).
 //@   requires forall k in queues :: queues[k] != nil
 //@   loop 1
 //@     invariant queuesByPriority != nil && fresh(queuesByPriority)
@@ -305,7 +329,7 @@ package resource_division
 //@   loop 1
 //@     invariant sortedQueues != nil && fresh(sortedQueues) && fresh(sortedQueues.queue.items)
 //@     invariant oldQueuesKept()
-//@     invariant forall i int :: 0 <= i && i < len(sortedQueues.queue.items) ==> typeis(sortedQueues.queue.items[i], "*remainingRequestedResource") && unbox(sortedQueues.queue.items[i], "*remainingRequestedResource") != nil
+//@     invariant forall i int :: 0 <= i && i < len(sortedQueues.queue.items) ==> typeis(sortedQueues.queue.items[i], "*remainingRequestedResource") && unbox(sortedQueues.queue.items[i], "*remainingRequestedResource") != nil && unbox(sortedQueues.queue.items[i], "*remainingRequestedResource").queue != nil
 //@     invariant forall i int :: 0 <= i && i < len(sortedQueues.queue.items) ==> inTable(remainingRequested, unbox(sortedQueues.queue.items[i], "*remainingRequestedResource").queue)
 //@     invariant cur(totalResourceAmount) >= 0.0 && cur(totalResourceAmount) <= totalResourceAmount
 //@     invariant rrKeyed(remainingRequested)
@@ -326,6 +350,12 @@ package resource_division
 // remainder tables per priority: every table is a fresh map, every record is fresh and points to one of the siblings
 //@ define rrAllOK(all map[int]map[common_info.QueueID]*remainingRequestedResource, qs map[common_info.QueueID]*rs.QueueAttributes) bool = forall p in all :: all[p] != nil && fresh(all[p]) && (forall k in all[p] :: k in qs && all[p][k] != nil && fresh(all[p][k]) && all[p][k].queue == qs[k])
 
+// C09, over-quota phases of one resource over all priority levels (levels in the strictly descending
+// order delivered by getQueuesByPriority; each level first gets its weighted rounds, then, while something
+// is left, the levels get their remainder hand-out in the same order). Proved per queue: shares only grow,
+// nothing is taken back, other resources / other queues untouched; both loops terminate.
+// NOT proved: "while a higher priority is unsatisfied, lower priorities receive at most its rounding
+// remainder" and remaining >= 0 (both need the sum of the shares handed out in divideUpToFairShare).
 //@ func divideOverQuotaResource
 //@   props C09
 //@   requires validRes(resourceName) && queuesOK(queues) && keyedByUID(queues) && weightsNonNeg(queues, resourceName)
